@@ -334,3 +334,83 @@ def ctor_env(repo, cls_qual: str, args: dict, models: dict | None = None) -> dic
     if len(ps) != 1:
         return {}
     return {k: v for k, v in ps[0].heap.items() if k.startswith("self.")}
+
+
+def mutable_defaults_untouched(ctx, rid: str, modules_prefix: tuple, why: str):
+    """A parameter whose default is a mutable literal (`{}`, `[]`, `set()`, `dict()`, `list()`) is one object shared by every call that
+    omits it: the function must not mutate it — directly (subscript store, `.setdefault/.update/.append/...`) or by handing it to a
+    repository function that mutates the corresponding parameter (one level).  What one call leaves in it is seen by every later call."""
+    import ast as _ast
+    from ..calls import MUTATORS
+    repo = ctx.repo
+
+    def mutated_params(fi):
+        """names of fi's parameters that fi mutates in place"""
+        ps = set(fi.params)
+        out = {}
+        rebound = {t.id for x in walk_scope(fi.node) if isinstance(x, _ast.Assign) for t in x.targets if isinstance(t, _ast.Name)} | \
+                  {x.target.id for x in walk_scope(fi.node) if isinstance(x, (_ast.AugAssign, _ast.AnnAssign)) and isinstance(x.target, _ast.Name)}
+        for x in walk_scope(fi.node):
+            nm = None
+            if isinstance(x, _ast.Subscript) and isinstance(x.ctx, (_ast.Store, _ast.Del)) and isinstance(x.value, _ast.Name):
+                nm = x.value.id
+            elif isinstance(x, _ast.Call) and isinstance(x.func, _ast.Attribute) and isinstance(x.func.value, _ast.Name) and x.func.attr in MUTATORS:
+                nm = x.func.value.id
+            elif isinstance(x, _ast.AugAssign) and isinstance(x.target, _ast.Name) and isinstance(x.op, (_ast.Add, _ast.BitOr)):
+                nm = x.target.id  # += / |= on a list / dict / set mutates in place
+                if nm in ps and nm not in out:
+                    out[nm] = x
+                continue
+            if nm in ps and nm not in rebound and nm not in out:
+                out[nm] = x
+        return out
+    n = bad = 0
+    for fi in repo.all_funcs():
+        if not fi.module.name.startswith(modules_prefix) or isinstance(fi.node, _ast.Lambda):
+            continue
+        a = fi.node.args
+        pos = a.posonlyargs + a.args
+        dflt = {}
+        for i, x in enumerate(pos):
+            di = i - (len(pos) - len(a.defaults))
+            if di >= 0:
+                dflt[x.arg] = a.defaults[di]
+        for x, d in zip(a.kwonlyargs, a.kw_defaults):
+            if d is not None:
+                dflt[x.arg] = d
+        shared = {p for p, d in dflt.items() if isinstance(d, (_ast.Dict, _ast.List, _ast.Set)) or
+                  (isinstance(d, _ast.Call) and isinstance(d.func, _ast.Name) and d.func.id in ("dict", "list", "set") and not d.args and not d.keywords)}
+        if not shared:
+            continue
+        n += 1
+        hit = None
+        own = mutated_params(fi)
+        for p in sorted(shared):
+            if p in own:
+                hit = (p, own[p], "mutates it in place")
+                break
+        if hit is None:
+            for x in walk_scope(fi.node):
+                if not isinstance(x, _ast.Call):
+                    continue
+                q = repo.resolve_expr(fi.module, x.func)
+                callee = repo.funcs.get(q) if q else None
+                if callee is None or isinstance(callee.node, _ast.Lambda):
+                    continue
+                cps = [c for c in callee.params if c not in ("self", "cls")] if callee.cls is not None else list(callee.params)
+                cm = mutated_params(callee)
+                for i, arg in enumerate(x.args):
+                    if isinstance(arg, _ast.Name) and arg.id in shared and i < len(cps) and cps[i] in cm:
+                        hit = (arg.id, x, f"hands it to {callee.qual.rsplit('.', 1)[-1]}(), which mutates its parameter `{cps[i]}` in place")
+                for kw in x.keywords:
+                    if kw.arg and isinstance(kw.value, _ast.Name) and kw.value.id in shared and kw.arg in cm:
+                        hit = (kw.value.id, x, f"hands it to {callee.qual.rsplit('.', 1)[-1]}(), which mutates its parameter `{kw.arg}` in place")
+                if hit:
+                    break
+        if hit:
+            bad += 1
+            ctx.violation(rid, fi.qual, loc(fi, hit[1]), "a shared default argument is not mutated",
+                          f"{fi.qual}: parameter `{hit[0]}` defaults to a mutable literal (one object for every call that omits it) and the function {hit[2]}: {why}")
+    ctx.floor(rid + ".functions_with_mutable_defaults", n, 3)
+    if not bad:
+        ctx.ok(rid, modules_prefix[0], f"{n} functions with a mutable default argument: none mutates it (directly or through a helper)")
